@@ -163,10 +163,27 @@ impl<'a> IrV<'a> {
                 let (under, _) = self.types.enums.get(k)?;
                 Some(VV::S(cast_val(*under, v.scalar()?)?))
             }
-            // same-type casts of aggregates (modifier changes only)
-            Ty::Struct(_) => if matches!(v, VV::St(_)) { Some(v.clone()) } else { None },
+            // same-type casts of aggregates (modifier changes only); `(S)x` for a scalar x (the `(S)0` idiom): the operand is
+            // evaluated once and every scalar element of the struct — element-wise through nested structs, arrays, vectors —
+            // receives x converted to the element's type
+            Ty::Struct(k) => match v {
+                VV::St(_) => Some(v.clone()),
+                VV::S(_) => {
+                    let members = self.types.structs.get(k)?.clone();
+                    Some(VV::St(members.iter().map(|(_, mt)| self.splat(mt, v)).collect::<Option<Vec<_>>>()?))
+                }
+                _ => None,
+            },
             Ty::Arr(..) => if matches!(v, VV::Ar(_)) { Some(v.clone()) } else { None },
             Ty::Void => None,
+        }
+    }
+
+    /// a scalar spread over every scalar element of an object of type `t` (inside a cast of a scalar to a struct)
+    fn splat(&self, t: &Ty, v: &VV) -> Option<VV> {
+        match t {
+            Ty::Arr(e, n) => Some(VV::Ar((0..*n).map(|_| self.splat(e, v)).collect::<Option<Vec<_>>>()?)),
+            _ => self.cast(t, v),
         }
     }
 
